@@ -207,16 +207,19 @@ Proof.
   intros HL HP. unfold mk_mesh_n, ndim. rewrite HL, Nat.eqb_refl, (forallb_pos HP). reflexivity.
 Qed.
 
+(* the labels the reader hands to the constructor: the stored list, or [] for the marker *)
+Definition attr_vdims (vd : option (list string)) : option (list string) :=
+  match vd with None => Some [] | Some l => Some l end.
+
 Lemma set_vdims_wf (nv : Z) (vd : option (list string)) :
   match vd with
-  | None => nv = 1%Z
+  | None => True
   | Some l => l <> [] /\ Z.of_nat (length l) = nv /\ nodupb l = true
-  end -> set_vdims nv vd = OK vd.
+  end -> set_vdims nv (attr_vdims vd) = OK vd.
 Proof.
-  destruct vd as [l|]; simpl.
-  - intros (Hne & Hl & Hd). destruct l as [|a l]; [congruence|].
-    rewrite Hl, Z.eqb_refl, Hd. reflexivity.
-  - intros ->. reflexivity.
+  destruct vd as [l|]; simpl; [|reflexivity].
+  intros (Hne & Hl & Hd). destruct l as [|a l]; [congruence|].
+  rewrite Hl, Z.eqb_refl, Hd. reflexivity.
 Qed.
 
 (* ---------- the round trip ---------- *)
@@ -225,7 +228,7 @@ Section Roundtrip.
 
   Theorem roundtrip (f : fstate V) :
     wf_field f -> f_unit f <> Some none_marker ->
-    decode conv (NewFile (encode f)) = OK (canon conv f).
+    decode conv (NewFile (encode f)) = OK (canon f).
   Proof.
     intros (Hc & Hpos & Hdl & Hdd & Hul & Hnl & Hnp & Hsubs & Hnv & Hvd) Hunit.
     destruct f as [ck m sk nv vd un dk vals valid]. simpl in *.
@@ -236,9 +239,9 @@ Section Roundtrip.
     (* vdims / unit attributes *)
     assert (Hvattr :
       match (match vd with None => AStr none_marker | Some l => AStrs l end) with
-      | AStr s => if String.eqb s none_marker then OK None else Err TypeE
+      | AStr s => if String.eqb s none_marker then OK (Some []) else Err TypeE
       | AStrs l => OK (Some l)
-      end = OK vd) by (destruct vd; reflexivity).
+      end = OK (attr_vdims vd)) by (destruct vd; reflexivity).
     rewrite Hvattr. simpl.
     assert (Huattr :
       (if String.eqb (match un with None => none_marker | Some u => u end) none_marker
@@ -268,36 +271,37 @@ Section Roundtrip.
     unfold mk_field. simpl.
     assert (H1 : (1 <=? nv)%Z = true) by (apply Z.leb_le; assumption).
     rewrite H1. simpl. rewrite !zlist_eqb_refl. simpl.
-    rewrite (set_vdims_wf nv vd Hvd). simpl.
-    unfold canon. simpl. reflexivity.
+    assert (Hvd' : match vd with
+                   | None => True
+                   | Some l => l <> [] /\ Z.of_nat (length l) = nv /\ nodupb l = true
+                   end) by (destruct vd; [assumption | exact I]).
+    rewrite (set_vdims_wf nv vd Hvd'). simpl.
+    (* vdim_mapping setter *)
+    assert (Hmap : match vd with
+                   | None => negb (nv =? 1)%Z && (nv =? Z.of_nat (ndim r))%Z
+                   | Some _ => false
+                   end = false).
+    { destruct vd as [l|]; [reflexivity|]. unfold ndim, r. simpl.
+      destruct Hvd as [E | NE].
+      - subst nv. reflexivity.
+      - apply Z.eqb_neq in NE. rewrite NE. apply andb_false_r. }
+    rewrite Hmap. unfold canon. simpl. reflexivity.
   Qed.
 
-  (* what [canon] keeps: everything the property lists *)
+  (* what [canon] keeps: everything the property lists, including the payload and its dtype kind *)
   Lemma canon_keeps (f : fstate V) :
-    (f_dk f = DInt -> Forall (fun v => conv v = v) (f_vals f)) ->
-    let g := canon conv f in
+    let g := canon f in
     f_ck g = f_ck f /\ f_mesh g = f_mesh f /\ f_nvdim g = f_nvdim f /\ f_vdims g = f_vdims f /\
-    f_unit g = f_unit f /\ f_vals g = f_vals f /\ f_valid g = f_valid f /\
-    is_complex (f_dk g) = is_complex (f_dk f) /\ (f_dk f <> DInt -> f_dk g = f_dk f).
-  Proof.
-    intro Hconv. simpl. repeat split; try reflexivity.
-    - unfold conv_vals. destruct (f_dk f) eqn:E; try reflexivity.
-      specialize (Hconv eq_refl). rewrite <- (map_id (f_vals f)) at 2.
-      apply map_ext_in. rewrite Forall_forall in Hconv. auto.
-    - destruct (f_dk f); reflexivity.
-    - destruct (f_dk f); simpl; congruence.
-  Qed.
+    f_unit g = f_unit f /\ f_vals g = f_vals f /\ f_valid g = f_valid f /\ f_dk g = f_dk f.
+  Proof. simpl. repeat split. Qed.
 
   Theorem roundtrip_state (f : fstate V) :
     wf_field f -> f_unit f <> Some none_marker ->
-    (f_dk f = DInt -> Forall (fun v => conv v = v) (f_vals f)) ->
     exists g, decode conv (NewFile (encode f)) = OK g /\
       f_ck g = f_ck f /\ f_mesh g = f_mesh f /\ f_nvdim g = f_nvdim f /\ f_vdims g = f_vdims f /\
-      f_unit g = f_unit f /\ f_vals g = f_vals f /\ f_valid g = f_valid f /\
-      is_complex (f_dk g) = is_complex (f_dk f) /\ (f_dk f <> DInt -> f_dk g = f_dk f).
+      f_unit g = f_unit f /\ f_vals g = f_vals f /\ f_valid g = f_valid f /\ f_dk g = f_dk f.
   Proof.
-    intros Hwf Hu Hc. exists (canon conv f). split; [apply roundtrip; assumption|].
-    apply canon_keeps. assumption.
+    intros Hwf Hu. exists (canon f). split; [apply roundtrip; assumption|]. apply canon_keeps.
   Qed.
 
   (* the numbers in the written table are the subregion corners themselves *)
@@ -416,7 +420,15 @@ Proof.
   rewrite Hss. simpl bind.
   unfold mk_field. simpl.
   assert (H1 : (1 <=? l_dim l)%Z = true) by (apply Z.leb_le; assumption).
-  rewrite H1, Hshape, !zlist_eqb_refl. simpl. reflexivity.
+  rewrite H1, Hshape, !zlist_eqb_refl. simpl.
+  (* default labels exist for every vector field, so the vdim_mapping test passes *)
+  assert (Hmap : match default_vdims (l_dim l) with
+                 | None => negb (l_dim l =? 1)%Z && (l_dim l =? Z.of_nat (ndim r))%Z
+                 | Some _ => false
+                 end = false).
+  { unfold default_vdims. destruct (l_dim l =? 1)%Z eqn:E1; [reflexivity|].
+    destruct (l_dim l <=? 3)%Z; reflexivity. }
+  rewrite Hmap. reflexivity.
 Qed.
 
 (* ---------- the limits of the format, as witnesses on the model ---------- *)
@@ -426,11 +438,11 @@ Definition unit_mesh : mesh := mkMesh (mkRegion [0] [1] ["x"%string] ["m"%string
 Definition w_marker : fstate Z :=
   mkF KInt unit_mesh [] 1%Z None (Some none_marker) DFloat [0%Z] [true].
 
-(* (b) an integer payload beyond 2^53 *)
+(* (b) an integer payload beyond 2^53 (kept exactly since commit 66ed56c8) *)
 Definition w_bigint : fstate Z :=
   mkF KInt unit_mesh [] 1%Z None None DInt [(2 ^ 53 + 1)%Z] [true].
 
-(* (c) a vector field without labels *)
+(* (c) a 3-vector on a 1-d mesh without labels (stays unlabelled since commit 8f3270c2) *)
 Definition w_nolabels : fstate Z :=
   mkF KInt unit_mesh [] 3%Z None None DFloat [0%Z; 0%Z; 0%Z] [true].
 
@@ -462,22 +474,22 @@ Proof.
   eexists. split; [vm_compute; reflexivity|]. simpl. discriminate.
 Qed.
 
-Lemma bigint_refuted :
-  exists f : fstate Z, wf_field f /\ f_unit f <> Some none_marker /\
-    exists g, decode round_f64 (NewFile (encode f)) = OK g /\ f_vals g <> f_vals f.
+Lemma w_nolabels_wf : wf_field w_nolabels.
 Proof.
-  exists w_bigint. split; [apply w_bigint_wf|]. split; [discriminate|].
-  eexists. split; [vm_compute; reflexivity|]. simpl. discriminate.
+  destruct unit_mesh_wf_parts as [A B]. unfold wf_field. simpl.
+  repeat split; auto; try lia; try (constructor; [lia | constructor]); try apply A; try reflexivity.
 Qed.
 
-Lemma nolabels_refuted :
-  exists f : fstate Z, f_vdims f = None /\ f_nvdim f = 3%Z /\
-    exists g, decode round_f64 (NewFile (encode f)) = OK g /\
-      f_vdims g = Some ["x"; "y"; "z"]%string.
-Proof.
-  exists w_nolabels. split; [reflexivity|]. split; [reflexivity|].
-  eexists. split; vm_compute; reflexivity.
-Qed.
+(* the two former limits now hold (instances of [roundtrip], evaluated) *)
+Lemma bigint_kept :
+  wf_field w_bigint /\ decode round_f64 (NewFile (encode w_bigint)) = OK w_bigint /\
+  round_f64 (2 ^ 53 + 1) <> (2 ^ 53 + 1)%Z.
+Proof. split; [apply w_bigint_wf|]. split; vm_compute; [reflexivity | discriminate]. Qed.
+
+Lemma nolabels_kept :
+  wf_field w_nolabels /\ f_vdims w_nolabels = None /\ f_nvdim w_nolabels = 3%Z /\
+  decode round_f64 (NewFile (encode w_nolabels)) = OK w_nolabels.
+Proof. split; [apply w_nolabels_wf|]. repeat split. Qed.
 
 (* a table typed after the region corners alone (the layout before commit 04fe8f0c) would
    truncate a fractional corner: the reason [table_kind] joins over all corners *)
@@ -517,7 +529,7 @@ Proof. split; [apply w_rich_wf|]. split; [discriminate|]. repeat split. Qed.
    everything [canon] keeps, i.e. on everything the property lists *)
 Lemma encode_injective {V} (conv : V -> V) (f1 f2 : fstate V) :
   wf_field f1 -> wf_field f2 -> f_unit f1 <> Some none_marker -> f_unit f2 <> Some none_marker ->
-  encode f1 = encode f2 -> canon conv f1 = canon conv f2.
+  encode f1 = encode f2 -> canon f1 = canon f2.
 Proof.
   intros W1 W2 U1 U2 E.
   pose proof (roundtrip conv f1 W1 U1) as R1. pose proof (roundtrip conv f2 W2 U2) as R2.
@@ -564,28 +576,27 @@ Proof.
   - apply IH. intro E. specialize (Himp E). inversion Himp; assumption.
 Qed.
 
-Lemma canon_wf {V} (conv : V -> V) (f : fstate V) : wf_field f -> wf_field (canon conv f).
+Lemma canon_wf {V} (f : fstate V) : wf_field f -> wf_field (canon f).
 Proof.
   intros (A & B & C & D & E & F & G & H & I & J). unfold wf_field, canon. simpl.
   repeat (split; [assumption|]). split; [|split; assumption].
   apply (wf_subs_repeat _ _ _ _ H). intro E'. apply (table_kind_int _ _ E').
 Qed.
 
-Lemma canon_idempotent {V} (conv : V -> V) (f : fstate V) :
+Lemma canon_idempotent {V} (f : fstate V) :
   Forall2 (wf_sub (reg (f_mesh f))) (f_subk f) (subs (f_mesh f)) ->
-  canon conv (canon conv f) = canon conv f.
+  canon (canon f) = canon f.
 Proof.
   intro H. unfold canon. simpl.
-  rewrite <- (Forall2_length' H). rewrite table_kind_repeat.
-  destruct (f_dk f); reflexivity.
+  rewrite <- (Forall2_length' H). rewrite table_kind_repeat. reflexivity.
 Qed.
 
 (* reading the file written from a read-back field returns that field again, exactly *)
 Theorem second_generation {V} (conv : V -> V) (f : fstate V) :
   wf_field f -> f_unit f <> Some none_marker ->
-  decode conv (NewFile (encode (canon conv f))) = OK (canon conv f).
+  decode conv (NewFile (encode (canon f))) = OK (canon f).
 Proof.
-  intros W U. rewrite (roundtrip conv (canon conv f) (canon_wf conv f W) U).
+  intros W U. rewrite (roundtrip conv (canon f) (canon_wf f W) U).
   f_equal. apply canon_idempotent. destruct W as (_ & _ & _ & _ & _ & _ & _ & H & _). exact H.
 Qed.
 
@@ -671,5 +682,6 @@ Proof.
   - repeat (let Y := fresh "Y" in apply andb_true_iff in X; destruct X as [X Y]).
     split; [|split; [apply Z.eqb_eq; assumption | assumption]].
     intro E. subst l. discriminate.
-  - apply Z.eqb_eq. assumption.
+  - apply orb_true_iff in X. destruct X as [X | X]; [left; apply Z.eqb_eq; assumption|].
+    right. apply negb_true_iff in X. apply Z.eqb_neq. assumption.
 Qed.
